@@ -881,6 +881,11 @@ def run_c09(ctx):
     q = ctx.tier == "quick"
     ctx.pmap(drivers.drv_shared_build, _stamp(shared_build_cases(), "drv_shared_build"))
     ctx.region("sub_proposition_object_shared_by_two_models")
+    dp = random_cases(ctx, 150 if q else 1500, REGIONS, max_box=128) + [{"recipe": r, "src": "handmade"} for r in adversarial_handmade()[:40]]
+    cat0 = api_catalog()
+    dp += [{"recipe": cat0[k], "src": "handmade"} for k in ("M1", "M2", "M3", "G1") if k in cat0]
+    ctx.pmap(drivers.drv_derive_poke, _stamp(dp, "drv_derive_poke"))
+    ctx.region("result_poked_source_checked")
     cat = api_catalog()
     pairs = [(cat["M1"], cat["CfgD"]), (cat["CfgD"], cat["CfgP"]), (cat["Cfg3"], cat["Cfg4"]), (cat["G1"], cat["M2"]), (cat["M3"], cat["M3"])]
     if not q: pairs += [(cat["CfgP"], cat["CfgD"]), (cat["Cfg4"], cat["Cfg3"]), (cat["CfgG"], cat["M1"]), (cat["M1"], cat["M1"])]
